@@ -1,5 +1,6 @@
 (* C07, part 3: the executable reads (Get, List) are functions of `visible`. *)
 From KB Require Import Base.Cases Model.Coder Model.CompactSys Model.C07Cases Proofs.Coder Proofs.CompactSafe.
+From Coq Require Import Sorted.
 Local Open Scope N_scope.
 
 (* latest_le computes the newest candidate among `best` and the matching records *)
@@ -96,3 +97,55 @@ Qed.
 Lemma veq_absent R A B R' k :
   uniq_ver A -> uniq_ver B -> veq R A B -> R <= R' -> (get_at A R' k = None <-> get_at B R' k = None).
 Proof. intros UA UB Hv HR. rewrite (veq_get_at R A B R' k UA UB Hv HR). reflexivity. Qed.
+
+(* ---------- List / Count as specified by the snapshot semantics (C03): sorted by key, exactly the visible keys
+   of the range ---------- *)
+
+Definition kvr_key (e : kvr) : bytes := fst (fst e).
+
+Definition list_spec (V : store) (lo hi : bytes) (R : N) (l : list kvr) : Prop :=
+  StronglySorted (fun a b => bcmp (kvr_key a) (kvr_key b) = Lt) l /\
+  forall k v r, In (k, v, r) l <-> (bleb lo k && bltb k hi = true) /\ visible V R k r v.
+
+(* stores that read the same from R on have the same List results at every revision >= R *)
+Lemma list_spec_veq R A B lo hi R' l :
+  veq R A B -> R <= R' -> (list_spec A lo hi R' l <-> list_spec B lo hi R' l).
+Proof.
+  intros Hv HR. unfold list_spec. split; intros [Hs Hm]; (split; [exact Hs|]); intros k v r; rewrite Hm;
+    (split; intros [H1 H2]; (split; [exact H1|])); apply (Hv R' HR); exact H2.
+Qed.
+
+(* and the result is determined by the specification *)
+Lemma sorted_same_members (l1 l2 : list kvr) :
+  StronglySorted (fun a b => bcmp (kvr_key a) (kvr_key b) = Lt) l1 ->
+  StronglySorted (fun a b => bcmp (kvr_key a) (kvr_key b) = Lt) l2 ->
+  (forall e, In e l1 <-> In e l2) -> l1 = l2.
+Proof.
+  revert l2. induction l1 as [|a l1 IH]; intros l2 S1 S2 Hm.
+  - destruct l2 as [|b l2]; [reflexivity|]. exfalso. apply (Hm b). left; reflexivity.
+  - destruct l2 as [|b l2]; [exfalso; apply (Hm a); left; reflexivity|].
+    inversion S1 as [|? ? S1' F1]; subst. inversion S2 as [|? ? S2' F2]; subst.
+    rewrite Forall_forall in F1, F2.
+    assert (a = b).
+    { destruct (proj1 (Hm a) (or_introl eq_refl)) as [E|Ha]; [congruence|].
+      destruct (proj2 (Hm b) (or_introl eq_refl)) as [E|Hb]; [congruence|].
+      specialize (F1 _ Hb). specialize (F2 _ Ha). pose proof (bcmp_lt_trans _ _ _ F1 F2) as H. rewrite bcmp_refl in H. discriminate. }
+    subst b. f_equal. apply IH; [exact S1'|exact S2'|].
+    intros e. split; intros He.
+    + destruct (proj1 (Hm e) (or_intror He)) as [E|H]; [|exact H]. subst e. specialize (F1 _ He). rewrite bcmp_refl in F1. discriminate.
+    + destruct (proj2 (Hm e) (or_intror He)) as [E|H]; [|exact H]. subst e. specialize (F2 _ He). rewrite bcmp_refl in F2. discriminate.
+Qed.
+
+Lemma list_spec_unique V lo hi R l1 l2 : list_spec V lo hi R l1 -> list_spec V lo hi R l2 -> l1 = l2.
+Proof.
+  intros [S1 M1] [S2 M2]. apply sorted_same_members; [exact S1|exact S2|].
+  intros [[k v] r]. rewrite M1, M2. reflexivity.
+Qed.
+
+(* List (and Count = its length) at any revision >= R is the same before and after *)
+Lemma list_unchanged R A B lo hi R' l1 l2 :
+  veq R A B -> R <= R' -> list_spec A lo hi R' l1 -> list_spec B lo hi R' l2 -> l1 = l2 /\ length l1 = length l2.
+Proof.
+  intros Hv HR H1 H2. apply (list_spec_veq R A B lo hi R' l1 Hv HR) in H1.
+  pose proof (list_spec_unique B lo hi R' l1 l2 H1 H2) as E. subst. split; reflexivity.
+Qed.
